@@ -1,35 +1,86 @@
-"""PositionFilter.filter_pair (set measures): the SOUND half is proved -- missing values are handled as
-allow_missing says (C08), two token-less values are kept iff allow_empty (C09), and a kept pair
-shares a rank within the two prefixes under the pair-level token order, hence a token (C14).
-The SAFE half (C04: a pair meeting the threshold is never dropped) needs the positional-filter
-counting argument and is a bounded stand-in (oracle on the real code)."""
+"""PositionFilter.filter_pair (set measures), both halves proved.
+
+SOUND half: missing values are handled as allow_missing says (C08), two token-less values are kept
+iff allow_empty (C09), and a kept pair shares a rank within the two prefixes under the pair-level
+token order, hence a token (C14).
+
+SAFE half (C04: a pair meeting the threshold is never dropped, set tokenizers): loop invariants
+ * the prefix dict holds exactly the first P ranks of the left value, and the position stored with a
+   rank is never larger than the rank's real position (true for the code as it is -- it stores 0 for
+   every rank -- and for a version that advances l_pos),
+ * current_overlap == pcnt(i) = number of right prefix ranks seen so far that are left prefix ranks,
+   r_pos == i,
+plus the proved arithmetic theorems A2 / A3 and three facts of pure mathematics, machine-checked in
+Lean (lemmas/Lemmas.lean): PP (prefix principle), PQ (`prefix_match_count_pos`) and PB
+(`position_bound`: for strictly sorted X, Y with Y[i] = X[j], j < P:
+ |X n Y| <= pcnt(i) + 1 + min(|X| - j - 1, |Y| - i - 1))."""
 import z3
 from .common import *  # noqa
 from .externals import TOKENIZER
 import pyvc.natives_sort  # noqa
 from .token_ordering import ORD, ord_injective, all_ranked
 from .position import filter_obj
-from .prefix import plen_of, SETM
-from .theorems import required_sym
+from .prefix import plen_of, SETM, thr_ok, imul_facts, thr_ty_of
+from .theorems import required_sym, arithmetic_axioms, range_axioms
+from .prefix_tables import pshare_def
 from pyvc import natives as N
 
 QF = 'py_stringsimjoin.filter.position_filter.PositionFilter.'
 PDICT = DictT(INT, INT)
 
+# ---------------------------------------------------------------- spec functions of the counting argument
+_LIs = sort_of(LI)
+ppos = z3.Function('ppos', _LIs, z3.IntSort(), z3.IntSort())                 # first position of w in X (when w occurs)
+pcnt = z3.Function('pcnt', _LIs, z3.IntSort(), _LIs, z3.IntSort(), z3.IntSort())   # #{ k' < k : Y[k'] in X[0:P] }
+
+
+def pmem(X, P, w):
+    """w is one of the first P elements of X (quantifier-free, through the position function)"""
+    return z3.And(ppos(X, w) >= 0, ppos(X, w) < P, ppos(X, w) < L_len(LI, X), L_get(LI, X, ppos(X, w)) == w)
+
+
+def count_axioms():
+    """definitions: ppos is the first position of an element that occurs; pcnt by recursion on k"""
+    X, Y = z3.Consts('X!pc Y!pc', _LIs)
+    j, k, P = ints('j!pc k!pc P!pc')
+    return [z3.ForAll([X, j], z3.Implies(z3.And(j >= 0, j < L_len(LI, X)), z3.And(
+                ppos(X, L_get(LI, X, j)) >= 0, ppos(X, L_get(LI, X, j)) <= j,
+                L_get(LI, X, ppos(X, L_get(LI, X, j))) == L_get(LI, X, j))), patterns=[L_get(LI, X, j)]),
+            z3.ForAll([X, P, Y], pcnt(X, P, Y, 0) == 0, patterns=[pcnt(X, P, Y, 0)]),
+            z3.ForAll([X, P, Y, k], z3.Implies(z3.And(k >= 0, k < L_len(LI, Y)),
+                                               pcnt(X, P, Y, k + 1) == pcnt(X, P, Y, k) +
+                                               z3.If(pmem(X, P, L_get(LI, Y, k)), 1, 0)),
+                      patterns=[pcnt(X, P, Y, k + 1)])]
+
+
+clipf = z3.Function('clip_prefix', z3.IntSort(), z3.IntSort(), z3.IntSort())   # length of the slice X[0:p] of a list of n elements
+
+
+def clip(p, n):
+    return clipf(p, n)
+
+
+def clip_axiom():
+    p, n = ints('p!cl n!cl')
+    return [z3.ForAll([p, n], clipf(p, n) == z3.If(p <= n, z3.If(p >= 0, p, 0), n), patterns=[clipf(p, n)])]
+
 
 def _filter_pair(M):
     class FilterPair(Case):
         name = M
-        params = OD([('self', filter_obj(M, FLOAT)), ('lstring', VAL), ('rstring', VAL)])
+        params = OD([('self', filter_obj(M, thr_ty_of(M))), ('lstring', VAL), ('rstring', VAL)])
         returns = BOOL
         locals = {'l_prefix_dict': PDICT}
 
         def requires(self, c):
             t = c.f(c.p('self'), 'threshold')
-            return [('threshold-valid', z3.And(t > 0, t <= 1)), ('token-count-domain', S.toks_bounded())]
+            q = c.f(c.field(c.p('self'), 'tokenizer'), 'qval')
+            return [('threshold-valid', thr_ok(M, t, q)), ('token-count-domain', S.toks_bounded())]
 
         def setup(self, c):
-            return S.toks_axioms()
+            t = c.f(c.p('self'), 'threshold')
+            q = c.f(c.field(c.p('self'), 'tokenizer'), 'qval')
+            return imul_facts(M, q, t) + S.toks_axioms() + arithmetic_axioms(M, t) + range_axioms(M, t) + count_axioms() + clip_axiom()
 
         def ghost(self, c):
             return {'ordering': fresh(ORD, 'no_ordering')}
@@ -49,29 +100,42 @@ def _filter_pair(M):
             return f, l, r, rs, o, Tl, Tr, S.ranks(o, Tl), S.ranks(o, Tr)
 
         def _inv_left(c):
-            """l_prefix_dict holds exactly the ranks of the left prefix seen so far"""
+            """l_prefix_dict holds exactly the ranks of the left prefix seen so far; stored positions never
+            exceed the real ones (set mode)"""
             f, l, r, rs, o, Tl, Tr, Xl, Xr = FilterPair.terms(c)
             d = c.t('l_prefix_dict')
             w, j = ints('w!pp j!pp')
             return [('dict-keys-are-left-prefix-ranks', FA([w], z3.Implies(D_has(PDICT, d, w), z3.Exists(
                 [j], z3.And(j >= 0, j < c.i, j < L_len(LI, Xl), L_get(LI, Xl, j) == w), patterns=[L_get(LI, Xl, j)])),
-                [D_has(PDICT, d, w)]))]
+                [D_has(PDICT, d, w)])),
+                ('dict-keys-are-prefix-members', FA([w], z3.Implies(D_has(PDICT, d, w), pmem(Xl, c.i, w)),
+                                                    [D_has(PDICT, d, w)])),
+                ('every-prefix-rank-is-a-key', FA([j], z3.Implies(z3.And(j >= 0, j < c.i), D_has(PDICT, d, L_get(LI, Xl, j))),
+                                                  [L_get(LI, Xl, j)])),
+                ('stored-position-not-beyond-real-position', z3.Implies(rs, FA([w], z3.Implies(
+                    D_has(PDICT, d, w), z3.And(D_get(PDICT, d, w) >= 0, D_get(PDICT, d, w) <= ppos(Xl, w))),
+                    [D_get(PDICT, d, w)]))),
+                ('left-position-counter', z3.And(c.t('l_pos') >= 0, c.t('l_pos') <= c.i))]
 
         def _inv_right(c):
-            """a positive running overlap means that some right prefix rank seen so far is a left prefix rank"""
+            """current_overlap counts the right prefix ranks seen so far that are left prefix ranks"""
             f, l, r, rs, o, Tl, Tr, Xl, Xr = FilterPair.terms(c)
             i, j = ints('i!pp j!pp2')
+            P = clip(c.t('l_prefix_length'), L_len(LI, Xl))
             shared = z3.Exists([i, j], z3.And(i >= 0, i < c.i, i < L_len(LI, Xr), j >= 0, j < L_len(LI, Xl),
                                               L_get(LI, Xr, i) == L_get(LI, Xl, j)),
                                patterns=[z3.MultiPattern(L_get(LI, Xr, i), L_get(LI, Xl, j))])
             return [('overlap-non-negative', c.t('current_overlap') >= 0),
-                    ('positive-overlap-means-shared-rank', z3.Implies(c.t('current_overlap') > 0, shared))]
+                    ('positive-overlap-means-shared-rank', z3.Implies(c.t('current_overlap') > 0, shared)),
+                    ('overlap-is-the-prefix-match-count', c.t('current_overlap') == pcnt(Xl, P, Xr, c.i)),
+                    ('right-position-counter', c.t('r_pos') == c.i)]
 
         loops = {'0': LoopSpec(_inv_left), '1': LoopSpec(_inv_right)}
 
         def ensures(self, c, res):
             f, l, r, rs, o, Tl, Tr, Xl, Xr = FilterPair.terms(c)
             t = c.f(f, 'threshold')
+            q = c.f(c.field(f, 'tokenizer'), 'qval')
             nl, nr = L_len(LV, Tl), L_len(LV, Tr)
             missing = z3.Or(N.val_isnull(l), N.val_isnull(r))
             both_empty = z3.And(nl == 0, nr == 0)
@@ -80,15 +144,39 @@ def _filter_pair(M):
                                               L_get(LI, Xr, i) == L_get(LI, Xl, j)),
                                patterns=[z3.MultiPattern(L_get(LI, Xr, i), L_get(LI, Xl, j))])
             fs = [('missing', z3.Implies(missing, res.t == z3.Not(c.f(f, 'allow_missing')))),
-                  ('both-empty', z3.Implies(z3.And(z3.Not(missing), both_empty), res.t == z3.Not(c.f(f, 'allow_empty')))),
+                  ('both-empty', z3.Implies(z3.And(z3.Not(missing), both_empty),
+                                            res.t == (z3.Not(c.f(f, 'allow_empty')) if M in SETM else z3.BoolVal(False)))),
                   ('kept-pairs-share-a-rank', z3.Implies(z3.And(z3.Not(missing), z3.Not(both_empty), z3.Not(res.t)), shared))]
-            if not c.proving:
-                c.ex.assumed_log.append('%s {%s} [bounded]' % (QF + 'filter_pair', M))
-                ov = S.isectV(Tl, Tr)
-                fs.append(('never-drops-a-qualifying-pair', z3.Implies(
-                    z3.And(z3.Not(missing), rs, required_sym(M, ov, nl, nr, t)), z3.Not(res.t))))
+            ov = S.isectV(Tl, Tr)
+            if M not in SETM:
+                # EDIT_DISTANCE mode (q-gram bags, integer threshold): sound half only; the safe half needs the q-gram
+                # lemma for bags and stays with the bounded stand-in (props.PAIR_INT_MODES)
+                return fs
+            if c.proving:
+                # pure mathematics (Lean: prefix_principle, prefix_match_count_pos, position_bound), for this
+                # pair under the pair-level order; X = ranks of the left tokens, Y = ranks of the right tokens
+                def pl(n):
+                    return clip(plen_of(M, n, t, q), n)
+                P, Q = pl(nl), pl(nr)
+                covers = z3.And(all_ranked(o, V(LV, Tl)), all_ranked(o, V(LV, Tr)), ord_injective(o))
+                share = pshare_def(M, o, Tl, Tr, t, q)
+                PP = z3.Implies(z3.And(covers, rs, ov >= 1, ov >= nl - P + 1, ov >= nr - Q + 1), share)
+                RL = z3.Implies(covers, z3.And(L_len(LI, Xl) == nl, L_len(LI, Xr) == nr))
+                PQ = FA([i, j], z3.Implies(z3.And(i >= 0, i < Q, i < L_len(LI, Xr), j >= 0, j < P, j < L_len(LI, Xl),
+                                                  L_get(LI, Xr, i) == L_get(LI, Xl, j)), pcnt(Xl, P, Xr, Q) >= 1),
+                        [z3.MultiPattern(L_get(LI, Xr, i), L_get(LI, Xl, j))])
+                wi = L_get(LI, Xr, i)
+                PB = FA([i], z3.Implies(z3.And(covers, rs, i >= 0, i < L_len(LI, Xr), pmem(Xl, P, wi)), z3.And(
+                    ov <= pcnt(Xl, P, Xr, i) + 1 + (L_len(LI, Xl) - ppos(Xl, wi) - 1),
+                    ov <= pcnt(Xl, P, Xr, i) + 1 + (L_len(LI, Xr) - i - 1))), [pcnt(Xl, P, Xr, i)])
+                c.ex.assumed_log.append('lemma PP / PQ / PB (pure mathematics) [proved in Lean, lemmas/Lemmas.lean: '
+                                        'prefix_principle, prefix_match_count_pos, position_bound; statement correspondence assumed]')
+                c.extra.extend([PP, RL, PQ, PB] + S.isect_facts(VAL, V(LV, Tl), V(LV, Tr)) +
+                               S.toks_facts(rs, l) + S.toks_facts(rs, r))
+            fs.append(('never-drops-a-qualifying-pair', z3.Implies(
+                z3.And(z3.Not(missing), rs, required_sym(M, ov, nl, nr, t)), z3.Not(res.t))))
             return fs
     return FilterPair()
 
 
-register(QF + 'filter_pair', [_filter_pair(M) for M in SETM], props=('C04', 'C06', 'C08', 'C09', 'C14'))
+register(QF + 'filter_pair', [_filter_pair(M) for M in SETM + ('EDIT_DISTANCE',)], props=('C04', 'C06', 'C08', 'C09', 'C14'))
